@@ -305,7 +305,7 @@ let c10 (payload : string) : string =
         let dials = if d = "-" then [] else List.init (String.length d) (fun i -> d.[i] = '1') in
         let calls = if c = "-" then [] else List.map (fun o ->
           if String.length o > 2 && String.sub o 0 2 = "ok" then OOk (nat_of_int (int_of_string (String.sub o 2 (String.length o - 2))))
-          else match o with "svc" -> OSvc | "lost" -> OLost | "ctx" -> OCtx | "dl" -> ODeadline | _ -> failwith "outcome")
+          else match o with "svc" | "svc0" -> OSvc | "lost" -> OLost | "ctx" -> OCtx | "dl" -> ODeadline | _ -> failwith "outcome")
           (String.split_on_char ',' c) in
         { s_cached = false; s_dials = dials; s_calls = calls }
       | _ -> failwith "srv") in
